@@ -525,6 +525,8 @@ def native_setattr(it, o, name, v):
 
 
 def native_getitem(it, o, k):
+    if isinstance(o, SplitResult):
+        return split_getitem(it, o, k)
     try:
         return o[k]
     except (KeyError, IndexError, TypeError) as e:
@@ -661,6 +663,18 @@ def _st(x):
 
 def sym_getitem(it, o, k):
     raise Unsupported(f"subscript of symbolic value {o!r}")
+
+
+def split_getitem(it, o, k):
+    if k == 0:
+        sep = _st(o.sep)
+        h = _split_head(o.s.t, sep)
+        # defining property of s.split(sep)[0]: the prefix of s before the first sep (s itself if sep does not occur)
+        it.ctx.assume(z3.PrefixOf(h, o.s.t))
+        it.ctx.assume(z3.Not(z3.Contains(h, sep)))
+        it.ctx.assume(z3.If(z3.Contains(o.s.t, sep), z3.PrefixOf(z3.Concat(h, sep), o.s.t), h == o.s.t))
+        return concretize(SStr(h))
+    raise Unsupported("split()[k] for k != 0 on a symbolic string")
 
 
 def sym_index(it, o, k):
